@@ -670,17 +670,19 @@ def rule_error_gate_siblings(ctx: Ctx, out: Collector) -> None:
         raise AnalysisError(f'only {n} sub-dag runners found (RD-6 anchors vanished)')
 
 
-_ll_cache: Dict[str, bool] = {}
+_ll_cache: Dict[Tuple[int, str], bool] = {}
 
 
 def _has_launch_loop(ctx: Ctx, unit: FuncUnit) -> bool:
-    if unit.fid not in _ll_cache:
-        env = FuncEnv.of(ctx.p, unit)
+    key = (id(ctx), unit.fid)
+    if key not in _ll_cache:
+        # the function holds the launch loop - itself or in a helper it runs inline
+        from .cc import launch_loops
         found = False
-        for node in env.own_nodes():
-            if isinstance(node, ast.For):
-                txt = unparse(node)
-                if '_create_task' in txt or 'create_task' in txt:
-                    found = True
-        _ll_cache[unit.fid] = found
-    return _ll_cache[unit.fid]
+        if unit.is_async and not isinstance(unit.node, ast.Lambda):
+            try:
+                found = any(True for _ in launch_loops(ctx, ctx.graph(unit.fid)))
+            except AnalysisError:
+                found = False
+        _ll_cache[key] = found
+    return _ll_cache[key]
